@@ -573,6 +573,10 @@ def gen_chain(rng) -> dict[str, Any]:
 
 def cases(ctx: core.Ctx):
     rng = ctx.rng("cases")
+    # a first slice of sampled chains (they carry the cycles, duplicates and mismatched endblocks) before the enumeration, which the
+    # thorough tier's time cap may not get past
+    for _ in range(ctx.budget(1500, 48_000)):
+        yield gen_chain(rng)
     lay = layouts()
     L = 2 if ctx.tier == "quick" else 3
     idx = 0
